@@ -250,10 +250,15 @@ def run(ctx):
         fam = FAMILIES[i % len(FAMILIES)] if i < 3 * len(FAMILIES) else str(rng.choice(FAMILIES))
         i += 1
         n = int(rng.integers(2, 11))
+        r_size = rng.random()
+        if r_size < 0.04:
+            n = 1
+        elif r_size < 0.1:
+            n = int(rng.integers(11, 14))
         u = make_unitary(rng, fam, n)
         circ = lw.Unitary(u)
         heralded = False
-        if rng.random() < 0.25:
+        if rng.random() < 0.25 and n >= 2:
             k = int(rng.integers(1, min(3, n - 1) + 1))
             modes = rng.choice(n, size=k, replace=False).tolist()
             outs = rng.permutation(modes).tolist() if rng.random() < 0.4 else modes
